@@ -140,3 +140,11 @@ def same_const(decoded, raw):
     if isinstance(decoded, cd.CodeData):
         return False
     return E.t_iconst(decoded) == E.t_iconst(raw)
+
+
+def same_const_data(a, b):
+    """two decoded constants, type- and bit-exact (NaNs identified)"""
+    cd = E._cd()
+    if isinstance(a, cd.CodeData) or isinstance(b, cd.CodeData):
+        return a == b
+    return E.t_iconst_nan(a) == E.t_iconst_nan(b)
